@@ -29,13 +29,13 @@ def run(ctx):
     # system level: roles, dependency order, rates, scaling across components (seconds / milliseconds), implicit systems
     sysscen = os.path.join(ctx.work, "systems.scen.ndjson")
     open(sysscen, "w").close()
-    for cfg in (["Gen_n1", "Gen_n2", "Gen_n1z", "Gen_n2z", "Gen_n1u", "Gen_n2u"] if ctx.quick else ["Gen_n1", "Gen_n2", "Gen_n1z", "Gen_n2z", "Gen_n1u", "Gen_n2u", "Gen_n3run", "Gen_n3runz"]):
+    for cfg in (["Gen_n1", "Gen_n2", "Gen_n1z", "Gen_n2z", "Gen_n1u", "Gen_n2u", "Gen_n2d"] if ctx.quick else ["Gen_n1", "Gen_n2", "Gen_n1z", "Gen_n2z", "Gen_n1u", "Gen_n2u", "Gen_n2d", "Gen_n3run", "Gen_n3runz"]):
         part = ctx.gen("System", "Gen_System.tla", cfg + ".cfg", cfg, workers=8, timeout=3000, heap="12g")
         with open(sysscen, "a") as out:
             for i, line in enumerate(open(part)):
                 if ctx.quick and cfg == "Gen_n2u" and i % 3:
                     continue                      # quick: every third of the systems coupled with the implicit equation
-                if '"kind":"none"' in line.split('"fault":')[1][:40]:
+                if '"kind":"none"' in line.split('"fault":')[1][:40] or '"kind":"diffOfSum"' in line.split('"fault":')[1][:60]:
                     out.write(line)
     nsys = sum(1 for _ in open(sysscen))
     strace = ctx.execute("system", sysscen, timeout_s=120)
